@@ -168,8 +168,12 @@ pub fn generate(prop: Prop, seed: u64, run: u64, thorough: bool) -> RunSpec {
     }
     let mut spec = gen::generate(&mut rng, &prof);
     if let Some(m) = enum_mode {
-        // the sampled state must stay small enough to enumerate every prefix
-        spec.mode = Some(m.to_string());
+        // the sampled state must stay small enough to enumerate every prefix: every
+        // continuation is applied to a copy of the state rebuilt from the history, so a history
+        // with a long prelude (tombstone churn over a big universe) stays an ordinary run
+        if spec.ops.len() <= 160 {
+            spec.mode = Some(m.to_string());
+        }
     }
     if prop == Prop::C10 {
         spec.mode = Some("enum-args".to_string());
@@ -243,7 +247,32 @@ pub static DEADLINE_UNIX: std::sync::atomic::AtomicU64 = std::sync::atomic::Atom
 
 pub fn past_deadline() -> bool {
     let d = DEADLINE_UNIX.load(Ordering::Relaxed);
-    d != 0 && std::time::SystemTime::now().duration_since(std::time::UNIX_EPOCH).map_or(false, |t| t.as_secs() >= d)
+    (d != 0 && std::time::SystemTime::now().duration_since(std::time::UNIX_EPOCH).map_or(false, |t| t.as_secs() >= d)) || over_run_budget()
+}
+
+/// CPU time (ms) this process had used when the current run began, and the CPU budget (ms)
+/// an enumerating run may spend on starting new continuations. The watchdog (which reports a
+/// *hang*) is set well above that budget: an enumeration that is merely large stops early and
+/// is never mistaken for a hang. 0 = no budget (replays).
+pub static RUN_CPU_START_MS: AtomicU64 = AtomicU64::new(0);
+pub static RUN_CPU_BUDGET_MS: AtomicU64 = AtomicU64::new(0);
+
+#[cfg(not(miri))]
+pub fn cpu_ms() -> u64 {
+    let mut ts = libc::timespec { tv_sec: 0, tv_nsec: 0 };
+    unsafe {
+        libc::clock_gettime(libc::CLOCK_PROCESS_CPUTIME_ID, &mut ts);
+    }
+    ts.tv_sec as u64 * 1000 + ts.tv_nsec as u64 / 1_000_000
+}
+#[cfg(miri)]
+pub fn cpu_ms() -> u64 {
+    0
+}
+
+pub fn over_run_budget() -> bool {
+    let b = RUN_CPU_BUDGET_MS.load(Ordering::Relaxed);
+    b != 0 && cpu_ms().saturating_sub(RUN_CPU_START_MS.load(Ordering::Relaxed)) >= b
 }
 
 fn cmd_run(args: &[String]) -> i32 {
@@ -311,6 +340,9 @@ fn cmd_run(args: &[String]) -> i32 {
                 extra += 100 + (spec.ops.len() as u32) / 2;
             }
             watchdog(hang_secs + extra);
+            // enumerations stop starting new continuations at a third of that
+            RUN_CPU_START_MS.store(cpu_ms(), Ordering::Relaxed);
+            RUN_CPU_BUDGET_MS.store(((hang_secs + extra) as u64) * 1000 / 3, Ordering::Relaxed);
         }
         let o = run_for_prop(prop, &spec, want_hash || hash_file.is_some());
         if want_hash || hash_file.is_some() {
